@@ -315,6 +315,8 @@ def scenario_kwargs(env, name, n, hess_fn, record):
         return {"tol": 1e-2}
     if name == "maxiter":
         return {"options": {"maxiter": 2}}
+    if name == "tol-zero":
+        return {"tol": 0.0, "options": {"maxiter": 12}}
     if name == "bounds-pairs":
         return {"bounds": [(-0.25, 0.375)] * n}
     if name == "bounds-obj":
@@ -344,6 +346,7 @@ def scenario_kwargs(env, name, n, hess_fn, record):
 SCENARIO_METHODS = {
     "tol": ["L-BFGS-B", "BFGS", "Nelder-Mead", "CG"],
     "maxiter": ["L-BFGS-B", "BFGS", "Powell", "SLSQP"],
+    "tol-zero": ["BFGS", "CG"],
     "bounds-pairs": ["L-BFGS-B", "TNC", "SLSQP", "trust-constr", "Powell", "Nelder-Mead", "COBYLA"],
     "bounds-obj": ["L-BFGS-B", "SLSQP", "trust-constr"],
     "constraints-eq": ["SLSQP"],
@@ -676,6 +679,12 @@ def section_scalar(env, ctx, model):
             ("maxiter", {"method": "brent", "options": {"maxiter": 3}}),
             ("tol", {"tol": 1e-2}),
             ("args", {"args": (0.75,)}),
+            # values that are falsy in Python but meaningful to scipy
+            ("tol-zero-brent", {"tol": 0.0, "options": {"maxiter": 25}}),
+            ("tol-zero-golden", {"method": "golden", "tol": 0.0, "options": {"maxiter": 30}}),
+            ("args-zero", {"args": (0.0,)}),
+            ("bounded-zero-bounds", {"method": "bounded", "bounds": (0, 0.0 + abs(a) + 1.0)}),
+            ("empty-options", {"options": {}}),
             ("args+bounded+xatol", {"args": (0.75,), "method": "bounded", "bounds": (a - 2.0, a + 2.0), "options": {"xatol": 1e-2}}),
         ]
         for tag, kw in calls:
